@@ -194,6 +194,25 @@ func dataPlaneScenario(rng *rand.Rand, rounds int) {
 	if len(toks) == 0 {
 		toks = []string{"produce"}
 	}
+	// the front's own events (reader builder's RF.* hooks): fetcher started (tag, offset), message accepted / dropped
+	// with the version FetchMessage had sampled
+	var ft []string
+	for _, e := range evs {
+		a := e.Args
+		switch e.Kind {
+		case "RF.Start":
+			ft = append(ft, fmt.Sprintf("start:%s:%s", a[2], first(a[3])))
+		case "RF.Accept":
+			if a[5] != "true" {
+				ft = append(ft, fmt.Sprintf("acc:%s:%s:%s", a[2], a[3], a[4]))
+			}
+		case "RF.Drop":
+			ft = append(ft, fmt.Sprintf("drop:%s:%s", a[2], a[3]))
+		}
+	}
+	if len(ft) > 0 {
+		fmt.Fprintf(out, "ftrace %s\tok\n", strings.Join(ft, ";"))
+	}
 	// "undelivered" is reported through the monitors (a record the broker stores is never handed out): keep the trace
 	fmt.Fprintf(out, "gtrace t/0 %s\t%s\n", strings.Join(toks, ";"), status)
 }
